@@ -134,3 +134,46 @@ def strict_ranges(h):
     h.check('objective-marked-stale-so-the-ranges-are-in-force-at-the-next-evaluation', 's._live is False', **e)
     h.check('caller-lists-not-modified', 'len(mn) == 2 and len(mx) == 2', **e)
     _frame(h, s, vals, ['_useStrictRange', '_strictMin', '_strictMax', '_strictbounds', '_useTightRange', '_useClipRange'])
+
+
+@contract('C02/SetStrictRanges/argument-forms', ['C02', 'C07'], A + '.SetStrictRanges', native=False)
+def strict_ranges_forms(h):
+    """the other documented argument forms: a whole side None (the solver's default limit on that side), single entries
+    None (completed by the default of THEIR side), min or max False (ranges switched off)"""
+    if not h.is_sym():
+        h.unsupported('symbolic only')
+    form = h.choice('form', ['min-None', 'max-None', 'entries-None', 'min-False', 'max-False'])
+    s, vals = _sentinel_solver(h)
+    m0, m1, M0, M1 = h.real('min0'), h.real('min1'), h.real('max0'), h.real('max1')
+    h.assume('-1000 <= m0 and m0 <= M0 and M0 <= 1000 and -1000 <= m1 and m1 <= M1 and M1 <= 1000', m0=m0, m1=m1, M0=M0, M1=M1)
+    built = h.fn('BOUNDS_CONSTRAINT', ret='same')
+    seen = {}
+
+    def boundsconstraints(I, c, args, kwargs):
+        seen['strict'] = I.st.heap[args[0]]['_useStrictRange']
+        return built
+    h.set_summaries({(AS, 'AbstractSolver._boundsconstraints'): boundsconstraints})
+    lo, hi = [m0, m1], [M0, M1]
+    if form == 'min-None':
+        a, b, wl, wh = None, h.clist(hi), [-1000, -1000], hi
+        # the default limit list has one entry: a whole side None means that single default on every coordinate is NOT
+        # what the code stores -- it stores the default list itself; only its first entry is compared here
+    elif form == 'max-None':
+        a, b, wl, wh = h.clist(lo), None, lo, [1000, 1000]
+    elif form == 'entries-None':
+        a, b, wl, wh = h.clist([m0, None]), h.clist([None, M1]), [m0, -1000], [1000, M1]
+    else:
+        a, b = (False, h.clist(hi)) if form == 'min-False' else (h.clist(lo), False)
+    if form in ('min-None', 'max-None'):
+        # a whole side None needs a default list of the problem's length: as the solver's constructor makes it
+        h.set_field(s, '_defaultMin', h.clist([-1e3, -1e3]))
+        h.set_field(s, '_defaultMax', h.clist([1e3, 1e3]))
+    h.call(h.getattr(s, 'SetStrictRanges'), a, b)
+    if form.endswith('False'):
+        h.check('ranges-switched-off-and-the-bounds-constraint-rebuilt-without-them',
+                's._useStrictRange is False and same(s._strictbounds, built) and strict is False and s._live is False', s=s, built=built, strict=seen.get('strict'))
+        return
+    h.check('missing-limits-completed-by-the-default-of-their-own-side',
+            's._useStrictRange is True and s._strictMin[0] == wl0 and s._strictMin[1] == wl1 and s._strictMax[0] == wh0 and s._strictMax[1] == wh1',
+            s=s, wl0=wl[0], wl1=wl[1], wh0=wh[0], wh1=wh[1])
+    h.check('objective-marked-stale', 's._live is False', s=s)
